@@ -29,8 +29,10 @@ ALL values, sequences and indices (no sorry/axiom; bv_decide only in Lemmas/Bits
   fresh_reloc           a new section with type/entry size of a relocation table meets the hypotheses (non-vacuity)
   Lemmas/Bits.lean      rel32_sym_pack, rel32_type_pack (+ _any: what comes back outside the ranges), rel64_sym_pack,
                         rel64_type_pack, rel32_pack_unpack, rel64_pack_unpack, sext32_trunc_of_fits
-  set_entry_small_entsize_witness   (outside the domain) set_entry/swap_symbols have no entry-size guard: with
-                        0 < sh_entsize < sizeof(T) they write past the buffer; reproduced by the model, reported for C18.
+  set_entry_small_entsize_witness / _noop   (outside the domain) the member writes of set_entry with
+                        0 < sh_entsize < sizeof(T) go past the buffer (found here, repaired under C18 by
+                        fixes/21-reloc-set-entry-checks: generic_set_entry_* now have the getters' two guards, modelled in
+                        Reloc.setGeneric); after the fix such a call leaves the table alone.
 Covered by correspondence + oracle only: "after save and reload".  The harness saves with the real writer, loads the
 image again (eagerly or lazily), continues on the loaded object, and prints the bytes of the saved image at the section's
 file offset; the oracle decodes them with an independent Python gABI decoder.  On the model side `reload` is
@@ -49,7 +51,8 @@ THEOREMS = ["ElfioVerif.C11." + t for t in (
     "spec_roundtrip", "add_refines", "addInfo_refines", "adds_refine", "rel_bytes",
     "get_refines", "get_invalid", "get_total", "rel_roundtrip", "rela_roundtrip", "normEntry_addend_fits",
     "set_entry_frame", "set_entry_bytes", "set_entry_get", "set_invalid",
-    "set_total", "swap_refines", "swap_symbols_involutive", "fresh_reloc", "set_entry_small_entsize_witness")] + ["ElfioVerif." + t for t in (
+    "set_total", "swap_refines", "swap_symbols_involutive", "fresh_reloc", "set_entry_small_entsize_witness",
+    "set_entry_small_entsize_noop")] + ["ElfioVerif." + t for t in (
     "rel32_sym_pack", "rel32_type_pack", "rel32_sym_pack_any", "rel32_type_pack_any", "rel64_sym_pack",
     "rel64_type_pack", "rel32_pack_unpack", "rel64_pack_unpack", "sext32_trunc_of_fits")]
 SITES = ["reloc_", "rel32_", "rel64_", "rela32_", "rela64_", "conv", "sec32_insert", "sec64_insert"]
